@@ -111,6 +111,8 @@ class ModbusSim(PeerBase):
         if resp is not None and kind == "tcp" and self.mbap_len_bug and len(resp) > 9 and resp[7] == 3:
             wrong = 6 if self.mbap_len_bug == "request" else resp[8]
             resp = resp[0:4] + wrong.to_bytes(2, "big") + resp[6:]
+        if resp is not None and getattr(self, "stray", b"") and ((kind == "tcp" and resp[7] == 3) or (kind != "tcp" and resp[3] == 3)):
+            resp = resp + self.stray        # firmware that appends stray bytes to read answers (tolerated by the validators on purpose)
         if resp is not None:
             self.send_answer(s, resp, n)
 
